@@ -284,6 +284,25 @@ func runFrames(c *Case, r *mon.Rec) {
 				r.Sample(map[string]any{"kind": "frames", "fc": fc, "response_frame_len": len(fr)})
 			}
 		}
+		// hand-built values with a stale / unset length field: whatever frame Bytes() emits must still end with the CRC of the rest
+		if fc <= 4 || fc == 23 {
+			for _, d := range []int{-2, 2, -len(p.Data)} {
+				p2 := p
+				n := len(p.Data) + d
+				if n < 0 || n > 250 {
+					continue
+				}
+				if resp := LibResponseRTU(p2); resp != nil {
+					setByteLen(resp, uint8(n))
+					var fr []byte
+					if pn, txt := mon.Catch(func() { fr = resp.Bytes() }); pn {
+						r.Cover("inconsistent-literal", "bytes-panics:"+txt[:min(len(txt), 40)])
+						continue
+					}
+					checkTrailer(c, r, fmt.Sprintf("response-fc%d-inconsistent-length-field", fc), fr)
+				}
+			}
+		}
 		e := packet.ErrorResponseRTU{UnitID: libx.U8(rng), Function: fc, Code: libx.U8(rng)}
 		checkTrailer(c, r, "exception", e.Bytes())
 	}
@@ -385,6 +404,21 @@ func b2u(b bool) uint64 {
 		return 1
 	}
 	return 0
+}
+
+func setByteLen(resp packet.Response, n uint8) {
+	switch v := resp.(type) {
+	case *packet.ReadCoilsResponseRTU:
+		v.CoilsByteLength = n
+	case *packet.ReadDiscreteInputsResponseRTU:
+		v.InputsByteLength = n
+	case *packet.ReadHoldingRegistersResponseRTU:
+		v.RegisterByteLen = n
+	case *packet.ReadInputRegistersResponseRTU:
+		v.RegisterByteLen = n
+	case *packet.ReadWriteMultipleRegistersResponseRTU:
+		v.RegisterByteLen = n
+	}
 }
 
 // LibResponseRTU builds the library's RTU response value for a reference response (struct literal).
